@@ -37,6 +37,9 @@ def field_writes(f, flow, fields):
     for n in f.walk():
         lhs = _is_assign(n)
         if lhs is not None:
+            l0 = lhs.strip_all()
+            if l0.k == "DeclRefExpr" and l0.decl and l0.decl.get("k") in ("local", "parm", "binding"):
+                continue      # the local pointer / iterator / value itself changes (++p, p = q), not the storage it refers to
             for r in flow.root(lhs):
                 if r[0] == "this" and r[1] in fs:
                     out.append((n, r[1]))
@@ -62,9 +65,18 @@ def field_writes(f, flow, fields):
     return out
 
 
-def _lock_false(cond, pol, flag, prog):
+def _lock_false(cond, pol, flag, prog, depth=0):
     """does (cond == pol) say that the lock flag is false?"""
     c = cond.strip_all()
+    if c.k == "DeclRefExpr" and c.decl and c.decl.get("k") == "local" and depth < 3:
+        # a local flag computed once from the lock (const bool frozen = _locked || ...): look through it
+        fn = c.fn
+        defs = [v for v in fn.walk() if v.k == "VarDecl" and v.decl["id"] == c.decl["id"] and v.c]
+        written = any((w.k in ("BinaryOperator", "CompoundAssignOperator") and w.op and w.op.endswith("=") and w.op not in ("==", "!=", "<=", ">=")
+                       and w.c and w.c[0].strip_all().k == "DeclRefExpr" and w.c[0].strip_all().decl.get("id") == c.decl["id"]) for w in fn.walk())
+        if len(defs) == 1 and not written:
+            return any(_lock_false(a, p, flag, prog, depth + 1) for (a, p) in atoms_of(defs[0].c[0], pol))
+        return False
     if c.k == "UnaryOperator" and c.op == "!" and c.c:
         return _lock_false(c.c[0], not pol, flag, prog)
     if c.k == "MemberExpr" and c.decl and c.decl.get("k") == "field" and c.decl.get("n") == flag:
@@ -164,6 +176,11 @@ def rule_L1(prog, fixture=False):
                 if fact.belief:
                     continue
                 for (c, p) in atoms_of(fact.cond, fact.pol):
+                    if any(x.k == "DeclRefExpr" and x.decl and x.decl.get("n", "").startswith("__") for x in c.walk()):
+                        continue      # implicit range-for / iterator loop bound (__begin != __end): a shape condition
+                    cmp_ = as_comparison(c)
+                    if cmp_ is not None and all("iterator" in (side.strip().type or "") or side.strip().tc == "ptr" for side in (cmp_[0], cmp_[2])):
+                        continue      # iterator / pointer loop bound
                     deps = flow.deps(c)
                     if any(a[0] == "parm" and a[2] == "content" for a in deps):
                         data_bad = (n, c, p)
@@ -350,13 +367,28 @@ def _find_clamps(f, gain, ceil):
 
 
 def rule_L2(prog, fixture=False):
-    res = RuleResult("L2", "in the AGC loop every path from an update of the gain state to a use of it passes the clamp against "
-                           "max_gain")
+    res = RuleResult("L2", "wherever the AGC's gain state is updated, every path from the update to a use of the gain or to the end of "
+                           "the updating function passes the clamp against max_gain (so the state is clamped whenever it is visible)")
     gain, ceil = L2_STATE
-    funcs = sorted([f for f in prog.functions.values() if re.search(r"(^|::)_process$", f.qn) and prog.rel(f.file).endswith("agc.cpp")
-                    or (fixture and f.qn.endswith("_process"))], key=lambda f: (f.file, f.line, f.name))
+
+    def is_agc_field(n, name):
+        n = n.strip_all()
+        return (n.k == "MemberExpr" and n.decl and n.decl.get("k") == "field" and n.decl.get("n") == name
+                and (fixture or "Agc" in (n.decl.get("cls") or "")))
+    funcs = []
+    for f in sorted(prog.functions.values(), key=lambda f: (f.file, f.line, f.name)):
+        if f.get("implicit") or f.kind in ("ctor", "copy_ctor", "move_ctor", "dtor") or f.file.endswith("coverage.cc"):
+            continue
+        w = False
+        for n in f.walk():
+            if n.k in ("BinaryOperator", "CompoundAssignOperator") and n.op and n.op.endswith("=") and n.op not in ("==", "!=", "<=", ">=") \
+                    and n.c and is_agc_field(n.c[0], gain):
+                w = True
+                break
+        if w:
+            funcs.append(f)
     if not funcs:
-        res.broken.append("anchor vanished: lib/agc.cpp:_process not found")
+        res.broken.append("anchor vanished: no function updates the AGC gain state (field '%s' of AgcImpl)" % gain)
         return res
     for f in funcs:
         key = "L2:" + fkey(f)
@@ -379,15 +411,16 @@ def rule_L2(prog, fixture=False):
                 continue
             if n.k == "MemberExpr" and n.decl and n.decl.get("k") == "field" and n.decl.get("n") == gain and n.id not in write_lhs:
                 reads.append(n)
-        if not writes or not reads:
-            res.broken.append("anchor vanished: %s has no update/use of the field '%s'" % (f.short, gain))
+        if not writes:
+            res.add(key, DISCHARGED, where, "%s clamps the gain" % f.short, "the only writes of the gain are the clamp itself", func=f.name)
             continue
         if not clamps:
             res.add(key, VIOLATED, where, "%s clamps the gain" % f.short,
-                    "the gain state is updated (%s, line %d) and used (line %d) but no clamp against %s exists"
-                    % (writes[0].text(), writes[0].line, reads[-1].line, ceil), func=f.name)
+                    "the gain state is updated (%s, line %d) but no clamp against %s exists in the updating function"
+                    % (writes[0].text(), writes[0].line, ceil), func=f.name)
             continue
-        clamp_pos = {}     # block -> [element index of the clamp test / min-assignment]
+        f.blocks
+        clamp_pos = {}
         for c in clamps:
             loc = f.block_of(c.role("cond") if c.k == "IfStmt" else c)
             if loc:
@@ -403,17 +436,15 @@ def rule_L2(prog, fixture=False):
             if wl is None:
                 continue
             bw, j = wl
-            # same block, after the write
             first_clamp = min([c for c in clamp_pos.get(bw, []) if c > j], default=None)
             for (i, r) in sorted(reads_at.get(bw, []), key=lambda t: t[0]):
                 if i > j and (first_clamp is None or i < first_clamp):
-                    bad = (w, r)
+                    bad = (w, r, "use")
                     break
             if bad:
                 break
             if first_clamp is not None:
-                continue          # every path leaving the block has passed the clamp
-            # other blocks: walk forward until a clamp is met
+                continue
             seen = set()
             work = [s_ for s_ in f.blocks[bw].succs if s_ is not None]
             while work and not bad:
@@ -421,22 +452,30 @@ def rule_L2(prog, fixture=False):
                 if b_ in seen or b_ not in f.blocks:
                     continue
                 seen.add(b_)
+                if b_ == f.exit:
+                    bad = (w, None, "exit")
+                    break
                 cpos = min(clamp_pos.get(b_, []), default=None)
                 for (i, r) in sorted(reads_at.get(b_, []), key=lambda t: t[0]):
                     if cpos is None or i < cpos:
-                        bad = (w, r)
+                        bad = (w, r, "use")
                         break
                 if cpos is None:
                     work.extend(s_ for s_ in f.blocks[b_].succs if s_ is not None)
             if bad:
                 break
         if bad:
-            w, r = bad
-            res.add(key, VIOLATED, "%s:%d" % (prog.rel(f.file), r.line), "%s clamps the gain" % f.short,
-                    "the gain updated at line %d (%s) reaches its use at line %d (%s) on a path that does not pass the clamp"
-                    % (w.line, w.text(), r.line, (r.parent.parent.text() if r.parent is not None and r.parent.parent is not None else r.text())), func=f.name)
+            w, r, kind = bad
+            if kind == "use":
+                why = "the gain updated at line %d (%s) reaches its use at line %d (%s) on a path that does not pass the clamp" % (
+                    w.line, w.text(), r.line, (r.parent.parent.text() if r.parent is not None and r.parent.parent is not None else r.text()))
+                line = r.line
+            else:
+                why = "the gain updated at line %d (%s) reaches the end of %s on a path that does not pass the clamp: whoever reads it next sees an unclamped value" % (w.line, w.text(), f.short)
+                line = w.line
+            res.add(key, VIOLATED, "%s:%d" % (prog.rel(f.file), line), "%s clamps the gain" % f.short, why, func=f.name)
         else:
             res.add(key, DISCHARGED, where, "%s clamps the gain" % f.short,
-                    "%d update(s) of %s reach its %d use(s) only through the clamp at line %s" % (len(writes), gain, len(reads), ", ".join(str(c.line) for c in clamps)),
+                    "%d update(s) of %s reach its %d use(s) and the function's end only through the clamp at line %s" % (len(writes), gain, len(reads), ", ".join(str(c.line) for c in clamps)),
                     func=f.name)
     return res
